@@ -64,6 +64,10 @@ def oracle_equilibrium(R, tier, seed):
         mk = gen.tube_surface if model == "tube" else gen.wingbox_surface
         s = mk(mesh, symmetry=sym, struct_weight_relief=False, distributed_fuel_weight=False)
         loads = rng.normal(size=(ny, 6)) * np.array([1e3, 1e3, 1e4, 1e3, 1e3, 1e3])
+        if it % 3 == 1:
+            # loads of very different magnitude on the same beam (MN lift with N-size chordwise and spanwise components, all far
+            # above the documented absolute 1e-6 cut-off): every one of them must be carried
+            loads = rng.normal(size=(ny, 6)) * np.array([2.0, 1.5, 0.0, 0.8, 0.0, 1.0]); loads[:, 2] = 2.5e6 * rng.uniform(0.5, 1.0, ny); loads[:, 4] = -4e5
         p = structs.run(structs.build_struct(s, loads))
         nodes = structs.g(p, "wing.nodes"); disp = structs.g(p, "wing.disp")
         A = structs.g(p, "wing.A"); Iy = structs.g(p, "wing.Iy"); Iz = structs.g(p, "wing.Iz"); J = structs.g(p, "wing.J")
@@ -77,6 +81,13 @@ def oracle_equilibrium(R, tier, seed):
         bad = {}
         if np.abs(u[6 * root:6 * root + 6]).max() > 1e-9 * max(np.abs(u).max(), 1e-300): bad["root-not-clamped"] = float(np.abs(u[6 * root:6 * root + 6]).max() / np.abs(u).max())
         if np.abs(res[free]).max() > 1e-8 * scale: bad["equilibrium-residual"] = float(np.abs(res[free]).max() / scale)
+        # row by row against the load of that row: a small load component must not be lost next to large ones
+        small = [i for i in free if 1e-3 < abs(f[i]) < 1e-5 * np.abs(f).max()]
+        if small:
+            # what the stiffness terms of one row add up to is known to about 1e-12 of their sum of magnitudes
+            noise = 1e-11 * (np.abs(K) @ np.abs(u))
+            worst = max((abs(res[i]) - noise[i]) / abs(f[i]) for i in small)
+            if worst > 1e-3: bad["small-load-components-not-carried"] = float(worst)
         # independent solve (well conditioned: eliminate the root)
         uf = np.linalg.solve(K[np.ix_(free, free)], f[free])
         if np.abs(u[free] - uf).max() > 1e-6 * np.abs(uf).max(): bad["displacements-differ"] = float(np.abs(u[free] - uf).max() / np.abs(uf).max())
